@@ -20,6 +20,8 @@ ALSO = {'C16H': ['C13'], 'C07H': ['C17'], 'C16J': ['C13'], 'C13I': ['C16'], 'C16
 # seeds whose demonstration relies on behaviour the property text does not fix (kept for the record, not counted)
 NOT_ENTAILED = {
     'C20Q': "an environment variable that is set to the empty string: the property does not say whether that counts as set; mido itself treats '' differently for MIDO_DEFAULT_IOPORT and MIDO_DEFAULT_INPUT",
+    'C12V': 'the tracks are handed over as a one-shot iterable whose items are only valid until the next one is requested (itertools.groupby groups, a reader that reuses one track object): the property quantifies over lists of tracks, and every list, tuple, generator of independent tracks merges as before',
+    'C16U': 'play() starts its clock when it is called instead of at the first next(): the change is the same for an edited file and for a freshly built file with the same contents, which is all C16 compares; C13 does not fix which of the two moments is the start of the playback either (messages come out late, never early)',
     'C20R': 'whether use_environ=False also switches off MIDO_BACKEND: the property lists use_environ among the inputs but fixes no precedence for it over MIDO_BACKEND, and BackendSel leaves exactly these cells open (either module is accepted)',
 }
 # seeds that no longer apply to /repo's HEAD because a later fix: commit rewrote the lines they change
